@@ -353,3 +353,54 @@ add("C13", "update_positions crosses start and end", CORE,
 add("C13", "benign: cache self._current in a local in _add", TCORE,
     "        if text is None:\n            text = self.sql[self._start : self._current]\n",
     "        cur = self._current\n        if text is None:\n            text = self.sql[self._start : cur]\n", "silent")
+
+# ------------------------------------------------------------------------------- C10
+QF = "sqlglot/optimizer/qualify.py"
+add("C10", "swap qualify_tables and qualify_columns", QF,
+    "    expression = qualify_tables(\n        expression,\n        db=db,\n        catalog=catalog,\n        dialect=dialect,\n        on_qualify=on_qualify,\n        canonicalize_table_aliases=canonicalize_table_aliases,\n    )\n\n    if isolate_tables:\n        expression = isolate_table_selects(expression, schema=schema)\n\n    if qualify_columns:\n        expression = qualify_columns_func(\n            expression,\n            schema,\n            expand_alias_refs=expand_alias_refs,\n            expand_stars=expand_stars,\n            infer_schema=infer_schema,\n            allow_partial_qualification=allow_partial_qualification,\n        )\n",
+    "    if qualify_columns:\n        expression = qualify_columns_func(\n            expression,\n            schema,\n            expand_alias_refs=expand_alias_refs,\n            expand_stars=expand_stars,\n            infer_schema=infer_schema,\n            allow_partial_qualification=allow_partial_qualification,\n        )\n\n    expression = qualify_tables(\n        expression,\n        db=db,\n        catalog=catalog,\n        dialect=dialect,\n        on_qualify=on_qualify,\n        canonicalize_table_aliases=canonicalize_table_aliases,\n    )\n\n    if isolate_tables:\n        expression = isolate_table_selects(expression, schema=schema)\n",
+    "C10.a")
+add("C10", "drop the threading assignment of quote_identifiers", QF,
+    "        expression = quote_identifiers_func(expression, dialect=dialect, identify=identify)",
+    "        quote_identifiers_func(expression.copy(), dialect=dialect, identify=identify)", "C10.a")
+add("C10", "validation guarded by the wrong flag", QF,
+    "    if validate_qualify_columns:\n", "    if validate_qualify_columns and qualify_columns:\n", "C10.a")
+add("C10", "normalize_identifiers loses the dialect", QF,
+    "        expression,\n        dialect=dialect,\n        store_original_column_identifiers=True,",
+    "        expression,\n        store_original_column_identifiers=True,", "C10.a")
+add("C10", "default of quote_identifiers flipped", QF,
+    "    quote_identifiers: bool = True,\n", "    quote_identifiers: bool = False,\n", "C10.a")
+add("C10", "qualify_columns raises KeyError", "sqlglot/optimizer/qualify_columns.py",
+    "                raise OptimizeError(f\"Unknown column: {column_name}\")", "                raise KeyError(f\"Unknown column: {column_name}\")", "C10.b")
+add("C10", "benign: reorder keyword arguments", QF,
+    "        db=db,\n        catalog=catalog,\n        dialect=dialect,\n", "        dialect=dialect,\n        db=db,\n        catalog=catalog,\n", "silent")
+add("C10", "benign: new OptimizeError subclass raised", "sqlglot/optimizer/qualify_columns.py",
+    "                raise OptimizeError(f\"Unknown column: {column_name}\")", "                raise SchemaError(f\"Unknown column: {column_name}\")", "silent")
+
+# ------------------------------------------------------------------------------- C07
+add("C07", "sentinel removed unconditionally", G,
+    "        if self.pretty:\n            sql = sql.replace(self.SENTINEL_LINE_BREAK, \"\\n\")\n",
+    "        sql = sql.replace(self.SENTINEL_LINE_BREAK, \"\\n\")\n", "C07.a")
+add("C07", "sentinel inserted regardless of pretty", G,
+    "        if self.pretty:\n            return string.replace(\"\\n\", self.SENTINEL_LINE_BREAK)\n        return string\n",
+    "        return string.replace(\"\\n\", self.SENTINEL_LINE_BREAK)\n", "C07.a")
+add("C07", "early return in generate() before sentinel removal", G,
+    "        sql = self.sql(expression).strip()\n\n        if self.pretty:",
+    "        sql = self.sql(expression).strip()\n\n        if self.unsupported_level == ErrorLevel.IGNORE:\n            return sql\n\n        if self.pretty:", "C07.a")
+add("C07", "Athena generate() stops delegating", "sqlglot/generators/athena.py",
+    "        return self._trino_generator.generate(expression, copy=copy)\n",
+    "        return self._trino_generator.sql(expression)\n", "C07.a")
+add("C07", "comment text interpolated directly in a *_sql method", G,
+    "    def uncache_sql(self, expression: exp.Uncache) -> str:\n        table = self.sql(expression, \"this\")\n",
+    "    def uncache_sql(self, expression: exp.Uncache) -> str:\n        table = self.sql(expression, \"this\") + \" \".join(expression.comments or [])\n", "C07.b")
+add("C07", "maybe_comment ignores comments=False", G,
+    "            if self.comments\n            else None\n        )\n", "            if self.comments or expression\n            else None\n        )\n", "C07.b")
+add("C07", "emit a line comment", G,
+    "        return f\"{sql} {' '.join(comments_list)}\"\n", "        return f\"{sql} -- {' '.join(comments_list)}\"\n", "C07.c")
+add("C07", "sanitize_comment stops breaking up */", G,
+    "        comment = comment.replace(\"*/\", \"* /\").replace(\"/*\", \"/ *\")\n", "        comment = comment.replace(\"/*\", \"/ *\")\n", "C07.c")
+add("C07", "block comment without sanitize_comment", G,
+    "            f\"/*{self._replace_line_breaks(self.sanitize_comment(comment))}*/\"\n", "            f\"/*{self._replace_line_breaks(comment)}*/\"\n", "C07.c")
+add("C07", "benign: sanitize via a local", G,
+    "        comments_list = [\n            f\"/*{self._replace_line_breaks(self.sanitize_comment(comment))}*/\"\n            for comment in comments\n            if comment\n        ]\n",
+    "        comments_list = [\n            f\"/*{self._replace_line_breaks(self.sanitize_comment(comment))}*/\"\n            for comment in list(comments)\n            if comment\n        ]\n", "silent")
